@@ -7,6 +7,15 @@ import FinProtoc.Generated.Facts
   run): no assignment in generator or `cmd` code has an l-value reached through a pointer into the
   parsed model (`*model.Padding`, `*model.Field`, …).  On the pinned tree there were five
   (`GetPadding` rewrote `Padding.PadChar` in place) — repaired by a `fix:` commit.
+* `no_global_writes` (obligation, same regenerated facts): outside `init` and the entry point
+  `root.go`, no code of `internal/parser` or `cmd` assigns a package-level variable (its own or an
+  imported package's), stores into a package-level container (`sync.Map.Store`, …), or calls a
+  function of a third-party dependency that does so transitively inside its package
+  (`strcase.ConfigureAcronym` writes `strcase.uppercaseAcronym`, which every later `ToCamel` of the
+  process reads — seeded/C14d).  This is what makes `Gen M := M → Files × M` the right type: a
+  generator's output is a function of the model alone.  Heuristic limits: aliases of a package
+  variable and state behind interfaces are not followed; the process-separated comparison of the
+  check (one CLI process per target vs one process for all) covers those dynamically.
 * `driver_independent` (proved): if no generator changes the model, then whatever generators run
   before it, in whatever order and subset, each generator produces exactly what it produces alone
   on the freshly parsed model.
@@ -37,6 +46,8 @@ theorem driver_independent {M : Type} (before : List (Gen M)) (g : Gen M) (after
   simp
 
 theorem no_model_writes : modelWriteSites = [] := by decide
+
+theorem no_global_writes : ∀ s ∈ globalWriteSites, s.file = "root.go" := by decide
 
 /-- non-vacuity: a generator that does rewrite the model changes what the next one prints -/
 example : runAll [(fun (m : Nat) => ([("a", toString m)], m + 1)), (fun m => ([("b", toString m)], m))] 0
